@@ -100,3 +100,266 @@ Proof. apply (C06_pbkw_unwrap_no_panic toy). cbn. tauto. Qed.
 Example C06_everything_but_the_tag_is_unprotected_by_these_theorems :
   pie_unwrap (v3_pie toy) hdr_s key32' (z 48 ++ repeat xaa 32 ++ key32) = Ok key32.
 Proof. vm_compute. reflexivity. Qed.
+
+(* ================= PKE (seal) theorems and MAC-input theorems added after the first audit ================= *)
+From PV Require Import PkeProofs PaserkTamper.
+From PV.NonVacuity Require Import Toy2.
+
+Definition epk5 : bytes := repeat x05 32.
+Definition tagbad32 : bytes := z 31 ++ [x01].
+Definition xof4 (O : oracle) : bytes -> option bytes := fun sk => Some (x_of_seed O sk).
+Definition xofna (O : oracle) : bytes -> option bytes := fun sk => x_of_edpk O (drop 32 sk).
+Definition sk64 (O : oracle) : bytes := key32' ++ ed_pk O key32'.
+
+(* blobs produced by the model's seal functions *)
+Definition blob_x4 : bytes := Eval vm_compute in unwrap (v4_pke_seal toy (ed_pk toy key32') key32 n32).
+Definition blob_x2 : bytes := Eval vm_compute in unwrap (v2_pke_seal toy (ed_pk toy key32') key32 n32).
+Definition blob_na : bytes := Eval vm_compute in unwrap (na_pke_seal toy2 (ed_pk toy2 key32') key32 n32).
+Definition blob_p3 : bytes := Eval vm_compute in unwrap (v3_pke_seal toy 128 toy_p384 key32 esk48).
+Definition blob_r1 : bytes := Eval vm_compute in unwrap (v1_pke_seal toy (rsa_pk toy key32) key32' r512).
+Example pke_blobs_nontrivial :
+  length blob_x4 = 96 /\ length blob_x2 = 96 /\ length blob_na = 96 /\ length blob_p3 = 129 /\ length blob_r1 = 592 /\
+  drop 64 blob_x4 = key32 /\ drop 97 blob_p3 = key32 /\ take 32 (drop 48 blob_r1) = key32'.
+Proof. msplit; reflexivity. Qed.
+
+(* ---- *_is_generic: definitional bridges (closed by reflexivity: the backend functions ARE instances of the
+        generic one); both sides are the same SUCCESSFUL result on the sealed blob ---- *)
+Example C06_v4_pke_is_generic_nonvacuous :
+  v4_pke_unseal toy key32' blob_x4 = x_pke_unseal toy (str "k4") false (xof4 toy) key32' blob_x4 /\
+  x_pke_unseal toy (str "k4") false (xof4 toy) key32' blob_x4 = Ok key32.
+Proof. split; [exact (C06_v4_pke_is_generic toy key32' blob_x4)|vm_compute; reflexivity]. Qed.
+Example C06_v2_pke_is_generic_nonvacuous :
+  v2_pke_unseal toy key32' blob_x2 = x_pke_unseal toy (str "k2") false (xof4 toy) key32' blob_x2 /\
+  x_pke_unseal toy (str "k2") false (xof4 toy) key32' blob_x2 = Ok key32.
+Proof. split; [exact (C06_v2_pke_is_generic toy key32' blob_x2)|vm_compute; reflexivity]. Qed.
+Example C06_v4_sodium_pke_is_generic_nonvacuous :
+  na_pke_unseal toy2 (sk64 toy2) blob_na = x_pke_unseal toy2 (str "k4") true (xofna toy2) (sk64 toy2) blob_na /\
+  x_pke_unseal toy2 (str "k4") true (xofna toy2) (sk64 toy2) blob_na = Ok key32 /\
+  (* with the all-zero shared secret of [toy] the strict backend refuses the same blob *)
+  x_pke_unseal toy (str "k4") true (xofna toy) (sk64 toy) blob_na = Err CryptoError.
+Proof. msplit; [exact (C06_v4_sodium_pke_is_generic toy2 (sk64 toy2) blob_na)|vm_compute; reflexivity|vm_compute; reflexivity]. Qed.
+Example C06_v3_pke_is_generic_nonvacuous :
+  v3_pke_unseal toy sk48 blob_p3 = v3_pke_unseal_gen toy ctr_w_rustcrypto CryptoError sk48 blob_p3 /\
+  lc_pke_unseal toy sk48 blob_p3 = v3_pke_unseal_gen toy ctr_w_awslc InvalidKey sk48 blob_p3 /\
+  v3_pke_unseal_gen toy ctr_w_rustcrypto CryptoError sk48 blob_p3 = Ok key32 /\
+  v3_pke_unseal_gen toy ctr_w_awslc InvalidKey sk48 blob_p3 = Ok key32.
+Proof.
+  destruct (C06_v3_pke_is_generic toy sk48 blob_p3) as (A & B).
+  msplit; [exact A|exact B|vm_compute; reflexivity|vm_compute; reflexivity].
+Qed.
+(* the two instances differ where the parameter says so: an unparsable ephemeral key *)
+Definition noParse : oracle := fun name args => if String.eqb name "p384_parse" then [] else toy name args.
+Example C06_v3_pke_is_generic_nonvacuous_instances_differ :
+  v3_pke_unseal noParse sk48 blob_p3 = Err CryptoError /\ lc_pke_unseal noParse sk48 blob_p3 = Err InvalidKey.
+Proof. split; vm_compute; reflexivity. Qed.
+
+(* ---- X25519 accept-iff, both directions ---- *)
+Example C06_pke_x25519_accept_iff_nonvacuous_fwd :
+  exists tag epk edk xpk,
+    blob_x4 = tag ++ epk ++ edk /\ length tag = 32 /\ length epk = 32 /\ length edk = 32 /\
+    xof4 toy key32' = Some xpk /\
+    false && beq (x_mul_seed toy (take 32 key32') epk) zero32 = false /\
+    x_tag toy (str "k4") (x_mul_seed toy (take 32 key32') epk) epk xpk edk = tag /\
+    key32 = xorl edk (xchacha20 toy (x_ek toy (str "k4") (x_mul_seed toy (take 32 key32') epk) epk xpk) (x_nonce toy epk xpk) 32).
+Proof.
+  apply (proj1 (C06_pke_x25519_accept_iff toy (str "k4") false (xof4 toy) key32' blob_x4 key32)). vm_compute. reflexivity.
+Qed.
+(* a blob assembled by hand (ephemeral key 05..05, not one the toy seal would produce) with the right tag *)
+Example C06_pke_x25519_accept_iff_nonvacuous_bwd :
+  x_pke_unseal toy (str "k4") false (xof4 toy) key32' (z 32 ++ epk5 ++ repeat x33 32) = Ok (repeat x33 32).
+Proof.
+  apply (proj2 (C06_pke_x25519_accept_iff toy (str "k4") false (xof4 toy) key32' _ (repeat x33 32))).
+  exists (z 32), epk5, (repeat x33 32), (z 32). msplit; vm_compute; reflexivity.
+Qed.
+(* strict backend, second model (shared secret 01..01): accepted; and the strictness conjunct is a real
+   restriction: with [toy] it is false and the blob is refused *)
+Example C06_pke_x25519_accept_iff_nonvacuous_strict :
+  x_pke_unseal toy2 (str "k4") true (xofna toy2) (sk64 toy2) (z 32 ++ epk5 ++ repeat x33 32) = Ok (repeat x33 32) /\
+  true && beq (x_mul_seed toy (take 32 (sk64 toy)) epk5) zero32 = true /\
+  x_pke_unseal toy (str "k4") true (xofna toy) (sk64 toy) (z 32 ++ epk5 ++ repeat x33 32) <> Ok (repeat x33 32).
+Proof.
+  msplit.
+  - apply (proj2 (C06_pke_x25519_accept_iff toy2 (str "k4") true (xofna toy2) (sk64 toy2) _ (repeat x33 32))).
+    exists (z 32), epk5, (repeat x33 32), (z 32). msplit; vm_compute; reflexivity.
+  - vm_compute. reflexivity.
+  - intros H. apply (proj1 (C06_pke_x25519_accept_iff toy (str "k4") true (xofna toy) (sk64 toy) _ _)) in H.
+    destruct H as (tag & epk & edk & xpk & E & Lt & Le & Ld & _ & Hs & _).
+    assert (epk = epk5).
+    { change (z 32 ++ epk5 ++ repeat x33 32) with (z 32 ++ (epk5 ++ repeat x33 32)) in E.
+      apply app_eq_len in E as [_ E]; [|rewrite Lt; reflexivity].
+      apply app_eq_len in E as [E _]; [|rewrite Le; reflexivity]. symmetry. exact E. }
+    subst epk. vm_compute in Hs. discriminate Hs.
+Qed.
+
+Example C06_pke_x25519_wrong_length_nonvacuous :
+  x_pke_unseal toy (str "k4") false (xof4 toy) key32' (take 95 blob_x4) = Err InvalidKey /\
+  x_pke_unseal toy (str "k4") false (xof4 toy) key32' (blob_x4 ++ [x00]) = Err InvalidKey /\
+  x_pke_unseal toy2 (str "k4") true (xofna toy2) (sk64 toy2) [] = Err InvalidKey.
+Proof. msplit; apply C06_pke_x25519_wrong_length; vm_compute; discriminate. Qed.
+
+Example C06_pke_x25519_tag_tamper_nonvacuous :
+  x_pke_unseal toy (str "k4") false (xof4 toy) key32' (z 32 ++ z 32 ++ key32) = Ok key32 /\
+  blob_x4 = z 32 ++ z 32 ++ key32 /\
+  x_pke_unseal toy (str "k4") false (xof4 toy) key32' (tagbad32 ++ z 32 ++ key32) = Err CryptoError /\
+  x_pke_unseal toy2 (str "k4") true (xofna toy2) (sk64 toy2) (tagbad32 ++ z 32 ++ key32) = Err CryptoError.
+Proof.
+  msplit; [vm_compute; reflexivity|vm_compute; reflexivity| |].
+  - apply (C06_pke_x25519_tag_tamper toy (str "k4") false (xof4 toy) key32' tagbad32 (z 32) key32 (z 32));
+      [reflexivity|reflexivity|reflexivity|reflexivity|reflexivity|vm_compute; discriminate].
+  - apply (C06_pke_x25519_tag_tamper toy2 (str "k4") true (xofna toy2) (sk64 toy2) tagbad32 (z 32) key32 (z 32));
+      [reflexivity|reflexivity|reflexivity|vm_compute; reflexivity|vm_compute; reflexivity|vm_compute; discriminate].
+Qed.
+
+(* a forgery (other ephemeral key, other ciphertext) accepted under the genuine tag exists exactly where the MAC
+   collides; the toy MAC is constant, so the hypotheses are satisfiable and the theorem hands out the collision *)
+Example C06_pke_x25519_forgery_is_collision_nonvacuous :
+  x_tag toy (str "k4") (x_mul_seed toy (take 32 key32') epk5) epk5 (z 32) key32' =
+  x_tag toy (str "k4") (x_mul_seed toy (take 32 key32') (z 32)) (z 32) (z 32) key32 /\
+  (epk5, key32') <> (z 32, key32).
+Proof.
+  apply (C06_pke_x25519_forgery_is_collision toy (str "k4") false (xof4 toy) key32' (z 32) key32 (z 32) epk5 key32' key32');
+    [reflexivity|reflexivity|reflexivity|reflexivity|vm_compute; reflexivity|vm_compute; reflexivity|].
+  intros H. vm_compute in H. discriminate H.
+Qed.
+
+(* ---- v3 (P-384) ---- *)
+Definition tagbad48 : bytes := z 47 ++ [x01].
+Example C06_pke_v3_accept_iff_nonvacuous_fwd :
+  exists tag epk edk pk epk' xk,
+    blob_p3 = tag ++ epk ++ edk /\ length tag = 48 /\ length epk = 49 /\ length edk = 32 /\
+    p384_pk toy sk48 = Some pk /\ p384_parse toy epk = Some epk' /\ ecdh_p384 toy sk48 epk' = Some xk /\
+    v3_tag toy xk epk pk edk = tag /\
+    key32 = xorl edk (aes_ctr toy 128 (v3_ek toy xk epk pk) (v3_n toy xk epk pk) 32).
+Proof. apply (proj1 (C06_pke_v3_accept_iff toy 128%N InvalidKey sk48 blob_p3 key32)). vm_compute. reflexivity. Qed.
+(* by hand: an ephemeral key that is not in canonical form (03 || 11..11) and parses to the toy point *)
+Definition epk49 : bytes := x03 :: repeat x11 48.
+Example C06_pke_v3_accept_iff_nonvacuous_bwd :
+  v3_pke_unseal_gen toy 32 CryptoError sk48 (z 48 ++ epk49 ++ key32') = Ok key32'.
+Proof.
+  apply (proj2 (C06_pke_v3_accept_iff toy 32%N CryptoError sk48 _ key32')).
+  exists (z 48), epk49, key32', toy_p384, toy_p384, (z 48). msplit; vm_compute; reflexivity.
+Qed.
+Example C06_pke_v3_wrong_length_nonvacuous :
+  v3_pke_unseal_gen toy 128 InvalidKey sk48 (take 128 blob_p3) = Err InvalidKey /\
+  v3_pke_unseal_gen toy 128 InvalidKey sk48 (blob_p3 ++ [x00]) = Err InvalidKey /\
+  v3_pke_unseal_gen toy 32 CryptoError sk48 (z 96) = Err InvalidKey.
+Proof. msplit; apply C06_pke_v3_wrong_length; vm_compute; discriminate. Qed.
+Example C06_pke_v3_tag_tamper_nonvacuous :
+  blob_p3 = z 48 ++ toy_p384 ++ key32 /\
+  v3_pke_unseal_gen toy 128 InvalidKey sk48 (z 48 ++ toy_p384 ++ key32) = Ok key32 /\
+  v3_pke_unseal_gen toy 128 InvalidKey sk48 (tagbad48 ++ toy_p384 ++ key32) = Err CryptoError.
+Proof.
+  msplit; [vm_compute; reflexivity|vm_compute; reflexivity|].
+  apply (C06_pke_v3_tag_tamper toy 128%N InvalidKey sk48 tagbad48 toy_p384 key32 toy_p384 toy_p384 (z 48));
+    [reflexivity|reflexivity|reflexivity|reflexivity|reflexivity|reflexivity|vm_compute; discriminate].
+Qed.
+
+(* ---- v1 (RSA-KEM) ---- *)
+Definition c512 : bytes := Eval vm_compute in drop 80 blob_r1.
+Definition rn_toy : N := Eval vm_compute in match rsa_dec toy key32 (be_val c512) with Some r => r | None => 0%N end.
+Example C06_pke_v1_accept_iff_nonvacuous_fwd :
+  exists tag edk c rn,
+    blob_r1 = tag ++ edk ++ c /\ length tag = 48 /\ length edk = 32 /\ length c = 512 /\
+    rsa_dec toy key32 (be_val c) = Some rn /\
+    v1_tag toy c (be_minimal rn) edk = tag /\
+    key32' = xorl edk (aes_ctr toy ctr_w_rustcrypto (v1_ek toy c (be_minimal rn)) (v1_n toy c (be_minimal rn)) 32).
+Proof. apply (proj1 (C06_pke_v1_accept_iff toy key32 blob_r1 key32')). vm_compute. reflexivity. Qed.
+Example C06_pke_v1_accept_iff_nonvacuous_bwd :
+  v1_pke_unseal toy2 key32 (z 48 ++ key32 ++ c512) = Ok key32.
+Proof.
+  apply (proj2 (C06_pke_v1_accept_iff toy2 key32 _ key32)).
+  exists (z 48), key32, c512. eexists. msplit; try (vm_compute; reflexivity).
+Qed.
+Example C06_pke_v1_wrong_length_nonvacuous :
+  v1_pke_unseal toy key32 (take 591 blob_r1) = Err InvalidKey /\
+  v1_pke_unseal toy key32 (blob_r1 ++ [x00]) = Err InvalidKey /\
+  v1_pke_unseal toy key32 (z 96) = Err InvalidKey.
+Proof. msplit; apply C06_pke_v1_wrong_length; vm_compute; discriminate. Qed.
+Example C06_pke_v1_tag_tamper_nonvacuous :
+  v1_pke_unseal toy key32 (z 48 ++ key32' ++ c512) = Ok key32' /\ blob_r1 = z 48 ++ key32' ++ c512 /\
+  v1_pke_unseal toy key32 (tagbad48 ++ key32' ++ c512) = Err CryptoError.
+Proof.
+  msplit; [vm_compute; reflexivity|vm_compute; reflexivity|].
+  apply (C06_pke_v1_tag_tamper toy key32 tagbad48 key32' c512 rn_toy);
+    [reflexivity|reflexivity|reflexivity|vm_compute; reflexivity|vm_compute; discriminate].
+Qed.
+
+(* ---- MAC inputs ---- *)
+(* version relabel k4 -> k2 of a sealed key changes the MAC input; so does moving a byte from epk to edk being
+   impossible at equal epk length: used in contrapositive *)
+Example C06_pke_mac_input_injective_nonvacuous :
+  str "k4" ++ str ".seal." ++ epk5 ++ key32 <> str "k2" ++ str ".seal." ++ epk5 ++ key32 /\
+  (forall edk edk', str "k4" ++ str ".seal." ++ epk5 ++ edk <> str "k4" ++ str ".seal." ++ z 32 ++ edk') /\
+  (str "k4", epk5, key32) = (str "k4", epk5, key32).
+Proof.
+  msplit.
+  - intros E. apply C06_pke_mac_input_injective in E; try reflexivity. vm_compute in E. discriminate E.
+  - intros edk edk' E. apply C06_pke_mac_input_injective in E; try reflexivity. vm_compute in E. discriminate E.
+  - apply (C06_pke_mac_input_injective _ _ (str ".seal.")); reflexivity.
+Qed.
+(* the equal-length hypothesis is needed: without it a byte can move between epk and edk *)
+Example C06_pke_mac_input_injective_nonvacuous_hyp_needed :
+  str "k4" ++ str ".seal." ++ [x01] ++ [x02; x03] = str "k4" ++ str ".seal." ++ [x01; x02] ++ [x03] /\
+  (str "k4", [x01], [x02; x03]) <> (str "k4", [x01; x02], [x03]).
+Proof. split; [reflexivity|discriminate]. Qed.
+
+Example C06_pie_auth_input_nonvacuous :
+  pie_auth (v3_pie toy) key32 hdr_l n32 secret64 = pie_mac (v3_pie toy) key32 n32 (str "k3" ++ hdr_l ++ n32 ++ secret64) /\
+  pie_auth (v4_pie toy) key32 hdr_s n32 secret64 = pie_mac (v4_pie toy) key32 n32 (str "k4" ++ hdr_s ++ n32 ++ secret64) /\
+  length (str "k3" ++ hdr_l ++ n32 ++ secret64) = 2 + 16 + 32 + 64.
+Proof.
+  msplit; [exact (C06_pie_auth_input (v3_pie toy) key32 hdr_l n32 secret64)
+          |exact (C06_pie_auth_input (v4_pie toy) key32 hdr_s n32 secret64)|reflexivity].
+Qed.
+(* the MAC input depends on every component: a MAC that is the identity on its message (junk record otherwise)
+   turns [pie_auth] into the input itself *)
+Definition idmac_pie : pie_params :=
+  {| pie_ver := str "k9"; pie_tlen := 0; pie_ks := fun _ _ _ => []; pie_mac := fun _ _ m => m |}.
+Example C06_pie_auth_input_nonvacuous_depends :
+  pie_auth idmac_pie key32 hdr_l n32 [x01] = str "k9" ++ hdr_l ++ n32 ++ [x01] /\
+  pie_auth idmac_pie key32 hdr_l n32 [x01] <> pie_auth idmac_pie key32 hdr_s n32 [x01].
+Proof. split; [exact (C06_pie_auth_input idmac_pie key32 hdr_l n32 [x01])|vm_compute; discriminate]. Qed.
+
+Example C06_pie_auth_inputs_differ_nonvacuous :
+  (* version relabel k3 -> k4, kind relabel local -> secret, nonce/ciphertext change *)
+  pie_ver (v3_pie toy) ++ hdr_l ++ n32 ++ secret64 <> pie_ver (v4_pie toy) ++ hdr_l ++ n32 ++ secret64 /\
+  pie_ver (v3_pie toy) ++ hdr_l ++ n32 ++ secret64 <> pie_ver (v3_pie toy) ++ hdr_s ++ n32 ++ secret64 /\
+  pie_ver (v3_pie toy) ++ hdr_l ++ n32 ++ secret64 <> pie_ver (v3_pie toy) ++ hdr_l ++ z 32 ++ secret64 /\
+  pie_ver (v3_pie toy) ++ hdr_l ++ n32 ++ secret64 <> pie_ver (v3_pie toy) ++ hdr_l ++ n32 ++ (secret64 ++ [x00]).
+Proof.
+  msplit; apply C06_pie_auth_inputs_differ; try reflexivity; try (cbn; tauto); vm_compute; discriminate.
+Qed.
+
+Example C06_pbkw_mac_input_injective_nonvacuous :
+  str "k4" ++ hdr_pw ++ (z 16 ++ argon_params ++ z 24) ++ key32 <> str "k2" ++ hdr_pw ++ (z 16 ++ argon_params ++ z 24) ++ key32 /\
+  (forall c c', str "k4" ++ hdr_pw ++ (z 16 ++ argon_params ++ z 24) ++ c <>
+                str "k4" ++ str ".secret-pw." ++ (z 16 ++ argon_params ++ z 24) ++ c') /\
+  (str "k4", hdr_pw, z 56, key32) = (str "k4", hdr_pw, z 56, key32).
+Proof.
+  msplit.
+  - intros E. apply C06_pbkw_mac_input_injective in E; try reflexivity; try (cbn; tauto). vm_compute in E. discriminate E.
+  - intros c c' E. apply C06_pbkw_mac_input_injective in E; try reflexivity; try (cbn; tauto). vm_compute in E. discriminate E.
+  - apply C06_pbkw_mac_input_injective; try reflexivity; cbn; tauto.
+Qed.
+
+Example C06_pbkw_prefix_injective_nonvacuous :
+  (* moving the boundary between salt and parameters, or between parameters and nonce, is impossible *)
+  (forall n n', z 16 ++ argon_params ++ n <> (z 15 ++ [x01]) ++ argon_params ++ n') /\
+  (forall n', z 16 ++ argon_params ++ z 24 = z 16 ++ argon_params ++ n' -> n' = z 24) /\
+  (z 32, be_bytes 4 1000, z 16) = (z 32, be_bytes 4 1000, z 16).
+Proof.
+  msplit.
+  - intros n n' E. apply (C06_pbkw_prefix_injective (v4_pw toy)) in E; try reflexivity. vm_compute in E. discriminate E.
+  - intros n' E. apply (C06_pbkw_prefix_injective (v4_pw toy)) in E; try reflexivity. inversion E. reflexivity.
+  - apply (C06_pbkw_prefix_injective (lc_pw toy)); reflexivity.
+Qed.
+
+(* Scope observation for the PKE theorems (WEAKER than the property sentence, same kind as the PIE remark above):
+   "using any other recipient key returns an error" is not claimed by any C06 theorem — the x25519 collision theorem
+   fixes [sk] and varies (epk, edk) only, and v3 / v1 have no collision theorem at all.  Consistently, under the toy
+   MAC another recipient's secret key and a tampered ephemeral key are ACCEPTED by the model: *)
+Example C06_pke_other_recipient_is_unprotected_by_these_theorems :
+  x_pke_unseal toy (str "k4") false (xof4 toy) key32 blob_x4 = Ok key32 /\            (* key32 is not the recipient *)
+  x_pke_unseal toy (str "k4") false (xof4 toy) key32' (z 32 ++ epk5 ++ key32) = Ok key32 /\   (* other epk *)
+  v3_pke_unseal_gen toy 128 InvalidKey (z 47 ++ [x07]) blob_p3 = Ok key32.
+Proof. msplit; vm_compute; reflexivity. Qed.
